@@ -16,8 +16,11 @@ package common
 //@   pure
 
 // ---- C08: reserved words. An identifier is escaped when its C++ spelling (after the case conversion) is reserved.
+// The generated equality operators take their argument as `other` (`bool operator==(const R& other) const`): a field
+// of that name would be compared with itself.
 //@ func FieldIdentifierName
 //@   property C08
+//@   ensures the_name_of_the_compared_object_is_not_a_field_name: lastResult(formatting.ToSnakeCase) == "other" ==> result != "other"
 //@   ensures unreserved_spelling_is_kept: !(lastResult(formatting.ToSnakeCase) in reservedNames) ==> result == lastResult(formatting.ToSnakeCase)
 //@   ensures reserved_spelling_is_escaped: (lastResult(formatting.ToSnakeCase) in reservedNames) ==> result == lastResult(formatting.ToSnakeCase) + "_field"
 //@ func ComputedFieldIdentifierName
@@ -26,6 +29,9 @@ package common
 //@   ensures reserved_spelling_is_escaped: (lastResult(formatting.ToPascalCase) in reservedNames) ==> result == lastResult(formatting.ToPascalCase) + "_field"
 //@ func EnumValueIdentifierName
 //@   property C08
+// (an enum value is spelled k<PascalCase>: no entry of the reserved-word table starts with `k`, so with the table known
+// the escaping branch cannot be taken; it stays in the code for the day the table grows)
+//@   dead-return 1: no reserved word of the table is of the form k<Name>
 //@   ensures unreserved_spelling_is_kept: !(("k" + lastResult(formatting.ToPascalCase)) in reservedNames) ==> result == "k" + lastResult(formatting.ToPascalCase)
 //@   ensures reserved_spelling_is_escaped: (("k" + lastResult(formatting.ToPascalCase)) in reservedNames) ==> result == "k" + lastResult(formatting.ToPascalCase) + "_value"
 //@ func TypeIdentifierName
